@@ -1742,18 +1742,16 @@ func (k Keeper) CreteNewBorrow(ctx sdk.Context, liqBorrow liquidationtypes.Locke
 			diff := borrowPos.BridgedAssetAmount.Amount.Sub(firstBridgedAssetQty.TruncateInt())
 			if diff.GT(sdk.ZeroInt()) {
 				err := k.bank.SendCoinsFromModuleToModule(ctx, AssetOutPool.ModuleName, AssetInPool.ModuleName, sdk.NewCoins(sdk.NewCoin(borrowPos.BridgedAssetAmount.Denom, diff)))
-				if err != nil {
-					return
+				if err == nil {
+					borrowPos.BridgedAssetAmount.Amount = firstBridgedAssetQty.TruncateInt()
 				}
-				borrowPos.BridgedAssetAmount.Amount = firstBridgedAssetQty.TruncateInt()
 			} else {
 				newDiff := firstBridgedAssetQty.TruncateInt().Sub(borrowPos.BridgedAssetAmount.Amount)
 				if newDiff.GT(sdk.ZeroInt()) {
 					err := k.bank.SendCoinsFromModuleToModule(ctx, AssetInPool.ModuleName, AssetOutPool.ModuleName, sdk.NewCoins(sdk.NewCoin(borrowPos.BridgedAssetAmount.Denom, newDiff)))
-					if err != nil {
-						return
+					if err == nil {
+						borrowPos.BridgedAssetAmount.Amount = firstBridgedAssetQty.TruncateInt()
 					}
-					borrowPos.BridgedAssetAmount.Amount = firstBridgedAssetQty.TruncateInt()
 				}
 			}
 		} else {
@@ -1761,18 +1759,16 @@ func (k Keeper) CreteNewBorrow(ctx sdk.Context, liqBorrow liquidationtypes.Locke
 			diff := borrowPos.BridgedAssetAmount.Amount.Sub(secondBridgedAssetQty.TruncateInt())
 			if diff.GT(sdk.ZeroInt()) {
 				err := k.bank.SendCoinsFromModuleToModule(ctx, AssetOutPool.ModuleName, AssetInPool.ModuleName, sdk.NewCoins(sdk.NewCoin(borrowPos.BridgedAssetAmount.Denom, diff)))
-				if err != nil {
-					return
+				if err == nil {
+					borrowPos.BridgedAssetAmount.Amount = secondBridgedAssetQty.TruncateInt()
 				}
-				borrowPos.BridgedAssetAmount.Amount = secondBridgedAssetQty.TruncateInt()
 			} else {
 				newDiff := secondBridgedAssetQty.TruncateInt().Sub(borrowPos.BridgedAssetAmount.Amount)
 				if newDiff.GT(sdk.ZeroInt()) {
 					err := k.bank.SendCoinsFromModuleToModule(ctx, AssetInPool.ModuleName, AssetOutPool.ModuleName, sdk.NewCoins(sdk.NewCoin(borrowPos.BridgedAssetAmount.Denom, newDiff)))
-					if err != nil {
-						return
+					if err == nil {
+						borrowPos.BridgedAssetAmount.Amount = secondBridgedAssetQty.TruncateInt()
 					}
-					borrowPos.BridgedAssetAmount.Amount = secondBridgedAssetQty.TruncateInt()
 				}
 			}
 		}
